@@ -27,7 +27,7 @@ REQUIRED_COUNTERS = ["contract_evals:angularSpectrum", "contract_evals:oneStepFr
 
 def plan(tier, seed):
     n = 16
-    return [{"shard": i, "n_shards": n, "n_calls": 30 if tier == "quick" else 1200} for i in range(n)]
+    return [{"shard": i, "n_shards": n, "n_calls": 30 if tier == "quick" else 15000} for i in range(n)]
 
 
 def _eps(a):
